@@ -60,7 +60,7 @@ prop("C13",
 
 prop("C07",
      rule="literals: boundary pool, every digit count (1..120 quick / 1..800 thorough) as integer / negative / pure fraction / mixed, every power of ten -400..400, 19/20-digit and 128-bit integer boundaries, exact decimal expansions of midpoints between adjacent doubles (exact / just above / just below), long digit runs at every alignment of the 16-byte fraction reader, huge and zero-padded exponents, generated numbers; each through sonic_number::parse_number, the DOM, and 12 typed targets; simd_str2int on random 16-byte windows; every literal also through Rust's str::parse::<f64> as a second opinion on the specification",
-     unit_ops={"str2int"},
+     unit_ops={"str2int"}, guards=True,
      assumptions=["Spec/Num.v (exact decimal value, round half to even by integer arithmetic) is the definition of 'nearest f64'; it is compared with Rust's str::parse::<f64> on every finite literal of every run (op numstd) but its equality with Flocq's rounding operator is not proved",
                   "the Eisel-Lemire and big-decimal paths are not modelled: they are covered by the correspondence against the specification only"])
 prop("C08",
@@ -79,7 +79,7 @@ prop("C16",
      rule="the same random histories (3..30 steps) with, after every step, for every arena reachable from a live value: Arc strong count (hook) = number of live root-kind values pointing into it (walked through owned containers); then all values dropped in a random order with the survivors read in between",
      assumptions=["Arc's counter is atomic (std); cross-thread schedules are not explored by this check", "the counting allocator check of 'all memory released' is left to the thorough tier"])
 
-prop("C04",
+prop("C04", guards=True,
      rule="44 target types (all integer widths incl. 128-bit, f32/f64, char, String, unit, Option, Vec, tuples, fixed arrays, maps keyed by string/integer/bool/unit-enum, structs with optional/defaulted/unknown/denied/borrowed/flattened fields, newtype/tuple/unit structs, externally/internally/adjacently tagged and untagged enums, byte buffers, serde_json::Value) x type-directed texts in three modes (matching, near-matching: range boundaries, wrong width, missing/extra/duplicate fields, wrong framing, quoted numbers; mismatching + byte mutations) x {from_str, from_slice}; sonic-rs result (Ok value via Debug / Err) must equal serde_json's for the same type",
      assumptions=["serde_json 1.0.151 (float_roundtrip) is the reference named by the property; serde-derive's visitors are third-party", "documented differences excluded by the generator: nesting beyond 128, f32 overflow to infinity (F19), strings with escapes/controls as byte buffers (F21)"])
 prop("C19",
@@ -95,7 +95,7 @@ prop("C18",
      rule="exhaustive DFS over the interleavings of 1-3 threads at the granularity of the atomic operations of the two caches (every load and compare-exchange is a yield point of the shim; a weak compare-exchange adds a spurious-failure choice): readers of one shared LazyValue (escaped string -> Inner::parse_from) and of one shared OwnedLazyValue (LazyRaw::load) replayed step by step in the model (per-thread hit / miss+win / miss+lose); mixed readers, cloners and early droppers judged on values and on the allocation ledger (tracked allocations of the worker threads and of the shared value return to the baseline); quick tier caps each scenario at 3000 schedules",
      assumptions=["sequential consistency: the Acquire/Release/AcqRel annotations are not checked against the C++11 memory model", "clone/drop steps are not in the model (they are covered by the ledger on the real code)"])
 
-prop("C01",
+prop("C01", guards=True,
      rule="generated documents: valid / mutated once / mutated twice / truncated (2000 quick, 20000 thorough) plus boundary-size inputs (0..4097 bytes of one byte value) through every safe entry point: 20 parse targets x carriers, get / get_many / get_by_schema with a generated path, lazy and owned-lazy accessors, views, iterators, stream, serialization and Display/Debug of whatever was produced and of every error; verdict per input: no panic, and the tracked allocations of the call return to the baseline; nesting of 200000 levels in a child process must be an error, not a stack overflow",
      assumptions=["PARTIAL: memory errors that do not crash are not observable by this check (no sanitizer in the quick tier)"])
 
